@@ -1030,14 +1030,20 @@ namespace
             multi = multi || q["goal"].gets("type") == "states";
         return fmt(" levels=%ld goals=%s", (long)plan.geti("levels", 1), multi ? "several" : "one");
     }
+    // curved spaces (Reeds-Shepp, Dubins): the class names the space, their geodesics are not unique
+    std::string curvedContext(const Json &plan)
+    {
+        std::string sp = plan["world"].gets("space");
+        return sp == "rs" || sp == "dubins" ? " space=" + sp : "";
+    }
     std::string sfx(const Ctx &c)
     {
-        return " planner=" + c.planner + mlContext(c.plan);
+        return " planner=" + c.planner + mlContext(c.plan) + curvedContext(c.plan);
     }
 }  // namespace
 std::string PlanSim::mlContextOf(const Json &plan)
 {
-    return mlContext(plan);
+    return mlContext(plan) + curvedContext(plan);
 }
 namespace
 {
